@@ -10,7 +10,7 @@
    Not modelled: segments built from YAML configurations (MBI/HAB/AHAB/FCB/XMCD objects; their own export/parse round
    trip is C01/C06/C07/C12) -- a segment is its raw bytes and len(segment) = number of bytes; per-class recognisers of
    structured segments are parameters (rec/find) of the parse model. *)
-From Coq Require Import ZArith NArith List Bool Uint63.
+From Coq Require Import ZArith NArith List Bool.
 Require Import Value Bytes GenBimg.
 Import ListNotations.
 Local Open Scope Z_scope.
@@ -292,16 +292,6 @@ Definition syn (a : N) (n : Z) : list N :=
   | O => []
   | S O => [a]
   | S (S k) => a :: repeat (a + 32)%N k ++ [(a + 64)%N]
-  end.
-
-(* input encoding of long byte strings in case files: 7 bytes per primitive integer, little endian (a list literal of
-   N costs ~50 us per byte to type-check, a primitive integer literal almost nothing) *)
-Fixpoint le_bytes (k : nat) (z : Z) : list N :=
-  match k with O => [] | S k' => Z.to_N (Z.land z 255) :: le_bytes k' (Z.shiftr z 8) end.
-Fixpoint unpack63 (n : nat) (l : list int) : list N :=
-  match l with
-  | [] => []
-  | x :: tl => le_bytes (Nat.min n 7) (Uint63.to_Z x) ++ unpack63 (n - 7) tl
   end.
 
 (* output encoding: VInt k = "payload k of the case verbatim", VList [VInt b; VInt n] = n times byte b *)
